@@ -38,9 +38,11 @@ import (
 	"path/filepath"
 	"reflect"
 	"regexp"
+	"runtime"
 	"runtime/debug"
 	"sort"
 	"strings"
+	"sync"
 	"time"
 
 	"github.com/markkurossi/mpc/circuit"
@@ -146,7 +148,12 @@ func c08CompileWith(cc *compiler.Compiler, params *utils.Params, w *c08Writer, p
 		}
 	}()
 	w.b = new(bytes.Buffer)
-	c08Quiet(func() {
+	quiet := c08Quiet
+	if c08NoQuiet {
+		// concurrent family: os.Stdout is redirected once around all goroutines
+		quiet = func(f func()) { f() }
+	}
+	quiet(func() {
 		defer func() {
 			if r := recover(); r != nil {
 				obs.Err = fmt.Sprintf("panic: %v", r)
@@ -1434,6 +1441,126 @@ func c08RunProcessHistories(c *Ctx, tmp string) error {
 	return nil
 }
 
+// ---------------------------------------------------------------- concurrent compilations (schedules)
+
+// c08NoQuiet: set while the concurrent family runs (os.Stdout is swapped once, not per compilation).
+var c08NoQuiet bool
+
+// Overlapping compilations in one process - separate goroutines, each with its own Compiler, Params
+// and SSAOut writer - must give what the sequential compilation of the program gives: package-level
+// scratch state shared by all compilations would make listing, output names or circuit bytes depend
+// on goroutine scheduling.  Modes: the same program in all goroutines; different programs in
+// different goroutines; N = 2*GOMAXPROCS goroutines, and again 8 goroutines with GOMAXPROCS(2).
+func c08RunConcurrent(c *Ctx) {
+	var pool []*c08Prog
+	for _, hp := range c08HistoryPool(false) {
+		if !hp.prog.GMW && !strings.Contains(hp.name, "64") && !strings.Contains(hp.name, "32") && !strings.Contains(hp.name, "37") {
+			pool = append(pool, hp.prog)
+		}
+	}
+	for i, src := range c08DirectedWidthPrograms[:4] {
+		pool = append(pool, &c08Prog{Name: fmt.Sprintf("widths-directed-%02d", i), Src: src, Kind: "const-widths"})
+	}
+	pool = append(pool, c08MultiProgram([]string{"encoding/hex", "bytes"}))
+	pool = append(pool, c08InternPrograms()[2]) // 6 symbols, fresh table
+	ref := make([]c08Obs, len(pool))
+	for i, p := range pool {
+		ref[i] = c08Compile(p)
+		c.nEval++
+	}
+	differs := func(a, b c08Obs) string {
+		switch {
+		case a.Err != b.Err:
+			return "error-differs"
+		case a.SSA != b.SSA:
+			return "listing-differs"
+		case a.Circ != b.Circ || a.Bristol != b.Bristol:
+			return "circuit-differs"
+		}
+		return ""
+	}
+	type res struct {
+		pi  int
+		obs c08Obs
+	}
+	run := func(n, reps int, pick func(g, r int) int) []res {
+		out := make([][]res, n)
+		var wg sync.WaitGroup
+		start := make(chan struct{})
+		for g := 0; g < n; g++ {
+			wg.Add(1)
+			go func(g int) {
+				defer wg.Done()
+				<-start
+				for r := 0; r < reps; r++ {
+					pi := pick(g, r)
+					out[g] = append(out[g], res{pi, c08Compile(pool[pi])})
+				}
+			}(g)
+		}
+		close(start)
+		wg.Wait()
+		var all []res
+		for _, l := range out {
+			all = append(all, l...)
+		}
+		return all
+	}
+	reported := map[string]bool{}
+	check := func(mode string, n int, all []res) {
+		bad := 0
+		for _, r := range all {
+			c.nEval++
+			d := differs(ref[r.pi], r.obs)
+			if d == "" {
+				continue
+			}
+			bad++
+			key := "c08:concurrent-compilations:" + d
+			if reported[key+mode] {
+				continue
+			}
+			reported[key+mode] = true
+			p := pool[r.pi]
+			c.Fail(key, fmt.Sprintf("%s compiled while other compilations run in %d goroutines (%s; own Compiler, Params and SSAOut each) differs from its sequential compilation", p.Name, n, mode),
+				map[string]interface{}{"program": p, "mode": mode, "goroutines": n,
+					"sequential":       map[string]string{"circ": ref[r.pi].Circ, "bristol": ref[r.pi].Bristol, "ssa": ref[r.pi].SSA, "err": ref[r.pi].Err},
+					"concurrent":       map[string]string{"circ": r.obs.Circ, "bristol": r.obs.Bristol, "ssa": r.obs.SSA, "err": r.obs.Err},
+					"ssa_diff_excerpt": c08DiffExcerpt(ref[r.pi].ssaText, r.obs.ssaText)})
+		}
+		c.Hist(fmt.Sprintf("concurrent:%s:compilations=%d:differing=%d", mode, len(all), bad))
+		c.Eval("concurrent:"+mode, true)
+	}
+	// os.Stdout is swapped once for the whole family
+	if c08DevNull == nil {
+		c08DevNull, _ = os.OpenFile(os.DevNull, os.O_WRONLY, 0)
+	}
+	saved := os.Stdout
+	if c08DevNull != nil {
+		os.Stdout = c08DevNull
+	}
+	c08NoQuiet = true
+	defer func() { c08NoQuiet = false; os.Stdout = saved }()
+
+	n := 2 * runtime.GOMAXPROCS(0)
+	if n > 16 {
+		n = 16
+	}
+	if n < 4 {
+		n = 4
+	}
+	reps := c.N(6, 20)
+	for k := 0; k < 3; k++ { // the same program in all goroutines
+		pi := (k * 5) % len(pool)
+		check("same-program", n, run(n, reps, func(g, r int) int { return pi }))
+	}
+	check("different-programs", n, run(n, 2*reps, func(g, r int) int { return (g + r*7) % len(pool) }))
+	old := runtime.GOMAXPROCS(2)
+	check("different-programs-GOMAXPROCS2", 8, run(8, 2*reps, func(g, r int) int { return (g*3 + r) % len(pool) }))
+	check("same-program-GOMAXPROCS2", 8, run(8, reps, func(g, r int) int { return len(pool) - 1 }))
+	runtime.GOMAXPROCS(old)
+}
+
 // ---------------------------------------------------------------- probes for further sources of variation
 
 const c08TwoFilesMain = "package main\n\nimport (\n\t\"twofiles\"\n)\n\nfunc main(a, b uint8) uint8 {\n\treturn a + b + twofiles.A[1] + twofiles.B[2]\n}\n"
@@ -1892,6 +2019,7 @@ func runC08(c *Ctx) error {
 		return err
 	}
 	c08RunHistories(c)
+	c08RunConcurrent(c)
 
 	// ---- oracle and correspondence cases
 	paramsMutReported := map[string]bool{}
